@@ -19,6 +19,7 @@
 #include <babylon/future.h>
 
 #include <sched.h>
+#include <signal.h>
 #include <unistd.h>
 
 #include <atomic>
@@ -39,6 +40,30 @@ using ::babylon::coroutine::Cancellable;
 using ::babylon::coroutine::BasicCancellable;
 
 #define NOTSAN __attribute__((no_sanitize("thread"), noinline))
+
+// A finished harness coroutine is never destroyed: it parks here for ever.  A resumption that arrives
+// although the suspension it belongs to was already resumed then lands on a live frame and is
+// reported (instead of running a destroyed frame).
+struct ParkForever {
+  const char* what;
+  int id;
+  bool await_ready() const noexcept { return false; }
+  void await_suspend(std::coroutine_handle<>) const noexcept {}
+  void await_resume() const noexcept { vrt_event("ORACLE double-resume %s %d was resumed although it has no suspension outstanding", what, id); }
+};
+#define PARK(what, id) co_await ::babylon::coroutine::BasicPromise::NoTransformation<ParkForever> {ParkForever {what, id}}
+
+// a crash (the implementation ran into undefined behaviour) still delivers the trace of the run
+static void on_crash(int sig) {
+  static volatile int once = 0;
+  if (once) _exit(43);
+  once = 1;
+  vrt_event("VERDICT-crash signal %d", sig);
+  fputs(vrt_trace(), stdout);
+  fputs("VERDICT crash signal\nEND\n", stdout);
+  fflush(stdout);
+  _exit(43);
+}
 
 struct Rng {
   uint64_t s;
@@ -252,7 +277,7 @@ static coroutine::Task<> frame_body(World* w, int h) {
   }
   me.state = F_DONE;
   vrt_event("done %d", h);
-  co_return;
+  for (;;) PARK("frame", h);
 }
 
 static void client_op(World* w, const Op& op) {
@@ -634,7 +659,7 @@ static coroutine::Task<> c_outer(CWorld* w, int i) {
   if (result && *result != 100 + i) vrt_event("ORACLE wrong-value awaiter %d got %d", i, *result);
   me.state = F_DONE;
   vrt_event("cdone %d", i);
-  co_return;
+  for (;;) PARK("cancellable awaiter", i);
 }
 
 static void c_complete(CWorld* w, int i) {
@@ -815,7 +840,7 @@ static coroutine::Task<> a_outer(AWorld* w, int i) {
   if (got != expect) vrt_event("ORACLE wrong-value awaiter %d got %d expected %d", i, got, expect);
   me.state = F_DONE;
   vrt_event("adone %d", i);
-  co_return;
+  for (;;) PARK("awaiter", i);
 }
 
 static void run_await(uint64_t seed) {
@@ -884,6 +909,11 @@ static void run_await(uint64_t seed) {
 }
 
 int main(int argc, char** argv) {
+  signal(SIGSEGV, on_crash);
+  signal(SIGBUS, on_crash);
+  signal(SIGABRT, on_crash);
+  signal(SIGILL, on_crash);
+  signal(SIGFPE, on_crash);
   std::string mode = argc > 1 ? argv[1] : "futex";
   if (argc > 3 && !strcmp(argv[2], "corpus")) {
     uint64_t seed = argc > 4 ? strtoull(argv[4], 0, 10) : 1;
